@@ -524,19 +524,32 @@ static ares_status_t ares_append_requeue(ares_array_t **requeue,
                                          ares_server_t *server)
 {
   ares_requeue_t entry;
+  ares_status_t  status;
+
+  /* Detach first: whatever happens below, the query must not keep pointing at
+   * a connection whose query list no longer contains it. */
+  ares_query_remove_from_conn(query);
 
   if (*requeue == NULL) {
     *requeue = ares_array_create(sizeof(ares_requeue_t), NULL);
     if (*requeue == NULL) {
-      return ARES_ENOMEM;
+      status = ARES_ENOMEM;
+      goto fail;
     }
   }
 
-  ares_query_remove_from_conn(query);
-
   entry.qid    = query->qid;
   entry.server = server;
-  return ares_array_insertdata_last(*requeue, &entry);
+  status       = ares_array_insertdata_last(*requeue, &entry);
+  if (status == ARES_SUCCESS) {
+    return ARES_SUCCESS;
+  }
+
+fail:
+  /* The query cannot be scheduled for re-sending and nothing tracks it any
+   * more (no connection, no timeout): complete it with the error. */
+  end_query(query->channel, NULL, query, status, NULL);
+  return status;
 }
 
 static ares_status_t read_answers(ares_conn_t *conn, const ares_timeval_t *now)
